@@ -27,7 +27,9 @@ fn variant(expected: &str, others: &[&str], deviate: bool, sel: u16, edit: u16) 
     if !deviate {
         return expected.to_string();
     }
-    match sel % 7 {
+    match sel % 9 {
+        7 => format!("{} ", expected),
+        8 => format!(" {}", expected),
         0 => expected.chars().take(expected.chars().count().saturating_sub(1)).collect(),
         1 => format!("{}{}", expected, ["x", "-", "1", "a"][edit as usize % 4]),
         2 => {
@@ -70,7 +72,21 @@ fn date_variant(deviate: bool, sel: u16, t: Instant, local: &str, server: &str) 
     if !deviate {
         return utc;
     }
-    match sel % 8 {
+    match sel % 13 {
+        8 => format!(" {}", utc),
+        9 => format!("{} ", utc),
+        10 => {
+            // drop a leading zero of the day or month (lenient date parsers read it as the same day)
+            if &utc[6..7] == "0" {
+                format!("{}{}", &utc[..6], &utc[7..])
+            } else if &utc[4..5] == "0" {
+                format!("{}{}", &utc[..4], &utc[5..])
+            } else {
+                format!("{}0", utc)
+            }
+        }
+        11 => format!("{} {} {}", &utc[0..4], &utc[4..6], &utc[6..8]),
+        12 => format!("+{}", utc),
         0 => t.add_nanos(86_400_000_000_000).date8(),
         1 => t.add_nanos(-86_400_000_000_000).date8(),
         2 => {
